@@ -20,6 +20,7 @@ const blockCells = 100 // the canvas stores 100^3 samples per block (observable:
 // summary (count, range) is computed by finish() after the adder has returned.
 type recorder struct {
 	cpu      float64
+	sum      bool // accumulate repeated samples of one point the way the canvas does (+=); used by histories
 	lo, n    [3]int
 	val      []float64
 	has      []uint32 // 0/1, written with atomics
@@ -66,7 +67,11 @@ func (r *recorder) wrap(f sample.Vec3ToFloat) sample.Vec3ToFloat {
 			return v
 		}
 		if i, ok := r.at(q); ok {
-			r.val[i] = v // a point sampled twice at once would be a (counted) repetition; the value is the same
+			if r.sum {
+				r.val[i] += v // one adder never samples a point twice, adders of a history run one after the other
+			} else {
+				r.val[i] = v // a point sampled twice at once would be a (counted) repetition; the value is the same
+			}
 			if atomic.SwapUint32(&r.has[i], 1) == 1 {
 				atomic.AddInt64(&r.repeated, 1)
 			}
@@ -75,7 +80,11 @@ func (r *recorder) wrap(f sample.Vec3ToFloat) sample.Vec3ToFloat {
 			if _, dup := r.extra[q]; dup {
 				atomic.AddInt64(&r.repeated, 1)
 			}
-			r.extra[q] = v
+			if r.sum {
+				r.extra[q] += v
+			} else {
+				r.extra[q] = v
+			}
 			r.mu.Unlock()
 		}
 		return v
